@@ -69,6 +69,15 @@ ATTACK_BODY = {
     "name_private_type": "let _: Option<m::Nt> = None;",
     "name_private_error": "let _: Option<m::NtError> = None;",
     "name_private_parse_error": "let _: Option<outer::m::NtParseError> = None;",
+    # second wave: the same capabilities through other syntax
+    "struct_update": "let _ = m::Nt {{ 0: {V}, ..m::mk() }};",
+    "ref_mut_pattern": "let mut t = m::mk(); let m::Nt(ref mut x) = t; let _ = x;",
+    "index_mut": "let mut t = m::mk(); t[0] = 9;",
+    "string_push_through_deref": "let mut t = m::mk(); t.push_str(\"x\");",
+    "op_assign_through_deref": "let mut t = m::mk(); *t += {V};",
+    "into_mut_ref": "let mut t = m::mk(); let r: &mut {TY} = (&mut t).into(); let _ = r;",
+    "as_mut_method": "let mut t = m::mk(); let r: &mut {TY} = t.as_mut(); let _ = r;",
+    "swap_through_deref": "let mut t = m::mk(); let mut v: {TY} = {V}.into(); ::std::mem::swap(&mut *t, &mut v);",
 }
 
 
@@ -198,7 +207,8 @@ def check_C05():
         for validated in (False, True):
             rows.append({"cfg": {"fam": "any", "validated": validated, "traits": ["AsRef", "Deref", "Borrow"], "new_unchecked": nu, "vis": "pub(crate)",
                                  "const_fn": False, "generic": True},
-                         "attacks": ["tuple_ctor", "field_write", "deref_assign", "push_through_deref", "call_sanitize", "hidden_module_ctor", "for_in_mut"]
+                         "attacks": ["tuple_ctor", "field_write", "deref_assign", "push_through_deref", "call_sanitize", "hidden_module_ctor", "for_in_mut",
+                                     "index_mut", "swap_through_deref", "struct_update", "ref_mut_pattern"]
                                     + (["new_unchecked_without_unsafe"] if nu else ["new_unchecked_without_flag"]),
                          "control_may_fail": False})
     # ---------------- (C) attack catalogue
